@@ -1,6 +1,7 @@
 package main
 
 import (
+	"bytes"
 	"math/big"
 
 	"github.com/oasisprotocol/curve25519-voi/curve/scalar"
@@ -38,6 +39,24 @@ func recC05(c *ctx) {
 		for _, op := range []string{"scminimal", "canonical", "iscanonical", "modorder", "reduce", "neg", "invert"} {
 			c.scalarEvent(op, func() []byte { return append([]byte(nil), b...) })
 		}
+	}
+	// constructors: SetUint64, One, SetRandom (= wide reduction of 64 bytes read from the entropy source)
+	for _, x := range []uint64{0, 1, 2, 1 << 63, ^uint64(0), 0x1234567890abcdef} {
+		var b [8]byte
+		for j := 0; j < 8; j++ {
+			b[j] = byte(x >> (8 * uint(j)))
+		}
+		c.w.Emit(vt.Ev{"op": "uint64", "cfg": c.cfg, "a": vt.B(b[:]), "out": vt.B(sbytes(scalar.NewFromUint64(x)))})
+	}
+	c.w.Emit(vt.Ev{"op": "uint64", "cfg": c.cfg, "a": vt.B([]byte{1, 0, 0, 0, 0, 0, 0, 0}), "out": vt.B(sbytes(scalar.One()))})
+	for i := 0; i < 8; i++ {
+		ent := c.r.Bytes(64)
+		s, err := scalar.New().SetRandom(bytes.NewReader(ent))
+		e := vt.Ev{"op": "wide", "cfg": c.cfg, "a": vt.B(ent), "ok": err == nil}
+		if err == nil {
+			e["out"] = vt.B(sbytes(s))
+		}
+		c.w.Emit(e)
 	}
 	// boundary x boundary pairs for binary ops (sampled in quick, larger in thorough)
 	base := c.w.N
